@@ -31,6 +31,9 @@ structure MathFns.OK (F : MathFns K) : Prop where
 /-- literals by their exact value num/den -/
 def litK (t : Lit) : K := (t.2.1 : K) / (t.2.2 : K)
 
+/-- the one fact about `pow` that is used (ICON exponential branch): r ≤ 0.7940236163830469·2^r for r ≥ 5 -/
+def MathFns.ExpOK (F : MathFns K) : Prop := ∀ r : K, 5 ≤ r → r ≤ litK cIconExp * F.pow 2 r
+
 @[reducible] def fieldNum (F : MathFns K) : BNum K where
   toAdd := inferInstance
   toSub := inferInstance
